@@ -219,6 +219,15 @@ class FnTranslator:
             if key.startswith("self.") or key in self.types:
                 return self.param(key)
             self.err(node, "attribute %s" % key)
+        if isinstance(node, ast.Subscript):
+            # element-wise reading of array code: `x[j]` is accepted only when the anchor declares
+            # the exact subscript text in `types` (it then becomes a parameter)
+            key = self.txt(node)
+            if key in env:
+                return env[key]
+            if key in self.types:
+                return self.param(key)
+            self.err(node, "subscript %s" % key)
         if isinstance(node, ast.UnaryOp):
             a, t = self.expr(node.operand, env)
             if isinstance(node.op, ast.USub) and t == "num":
@@ -624,8 +633,10 @@ class FnTranslator:
                 raise Untranslatable("%s: no default for %s" % (self.where, k))
             env[k] = self.expr(defaults[k], {})
         arg_params = [k for k in self.argnames if k not in inline_defaults]
-        for k in arg_params:
-            self.param(k)
+        if not spec.get("prune_params"):
+            # (anchors with prune_params=True only get the arguments their text actually uses)
+            for k in arg_params:
+                self.param(k)
         if "expr_path" in spec:
             node = resolve_path(fn, spec["expr_path"], self.where)
             if not isinstance(node, ast.expr):
